@@ -737,4 +737,3 @@ func coreRandom(r *vh.Runner, c *vh.Case, i int) {
 	r.Nontrivial(fmt.Sprintf("core-rand|%d", i))
 }
 
-func genC09(r *vh.Runner) {}
